@@ -58,6 +58,12 @@ func (_ dimensionSetter) UpdateProperties(po tabular.PropertyOwner) error {
 		}
 	}
 
+	if _, declares := cell.Item().(tabular.TerminalCellWidther); declares && len(lines) == 1 {
+		// a single-line item which declares its own display width (eg, because it
+		// carries escape sequences) is laid out as exactly that wide
+		linesWidths[0].W = dims.cellWidth
+	}
+
 	po.SetProperty(propDimensions, dims)
 	po.SetProperty(propLinesWidths, linesWidths)
 	return nil
